@@ -19,8 +19,11 @@ for d in sorted(glob.glob("seeded/C*_*")):
     if ap.returncode != 0:
         rows.append((name, "patch does not apply", "", "")); continue
     t0 = time.time()
+    ev = open(f"evidence/{prop}.json").read() if os.path.exists(f"evidence/{prop}.json") else None
     r = sh(f"./check {prop}")
     sh("git -C /repo reset -q --hard HEAD")
+    if ev is not None:      # evidence files describe the unchanged tree
+        open(f"evidence/{prop}.json", "w").write(ev)
     out = r.stdout
     viol = [l for l in out.splitlines() if l.startswith("VIOLATION")]
     first = [l.strip() for l in out.splitlines() if l.strip().startswith("violated:")][:1]
